@@ -142,6 +142,13 @@ def bounded(tier, seed):
                 evals += 1
                 if not Q(s, r) or not paired_within_paragraphs(s, r):
                     viol.append({"clause": "paired_within_paragraph", "input": {"text": s}, "got": r})
+    # a template tag is copied verbatim however it is laid out -- also when it holds a blank line
+    for s in ('{% tag\n\nx "b c" %}', 'a {# c\n \n "q" #} "z w".', 'x {{ a\n\n"b" }} y "p q" z', '"a b" <!-- "c\n\nd" --> "e f"'):
+        r = smart_quotes(s)
+        evals += 1
+        for m in re.finditer(r"\{%.*?%\}|\{#.*?#\}|\{\{.*?\}\}|<!--.*?-->", s, re.S):
+            if r[m.start():m.end()] != m.group(0):
+                viol.append({"clause": "tags_untouched", "input": {"text": s}, "got": r})
     # document level: on vs off
     docs = D.documents(seed, 80 if tier == "quick" else 600, hazards=False)
     docs += ["He said \"it's `a \"q\" b` fine\" and 'x'.\n", "\"a\" <span title=\"t\"> [l](http://x \"T\") \\\"esc\\\" {% t a=\"b\" %} <!-- \"c\" -->\n",
